@@ -43,7 +43,6 @@ type selfValResult struct {
 var outOfReach = map[string]string{
 	"C16-a": "numeric: round-to-nearest instead of ceiling in average()",
 	"C19-b": "string language: a hand-written parser that accepts signed collection ids",
-	"C16-d": "numeric: operands of the remainder swapped in average() (quota one too high for exact multiples)",
 }
 
 func patchFiles(patch string) []string {
